@@ -337,40 +337,37 @@ Theorem C02_mysql_column_bits :
           (bit (mysql_cs_changed 2 c c') ChangeCollate)).
 Proof. exact mysql_column_bits. Qed.
 
-(** 4d. "an edited default is reported" is FALSE for MySQL bool columns: default 1 -> (1 = 2)
-    yields no change (reproduced on the Go code: known finding
-    C02-mysql-bool-default-unknown-value-unreported) ... *)
-Theorem C02_mysql_bool_default_refuted :
-  exists c c', c_class c = MY_BOOL /\ c_class c' = MY_BOOL /\ c_default c <> c_default c' /\
-               forall t, mysql_column_change t c c' = Some 0%N.
-Proof.
-  exists w_bool_col, w_bool_col'. split; [reflexivity|]. split; [reflexivity|]. split; [discriminate|].
-  exact w_bool_unreported.
-Qed.
-
-(** ... what holds: two known truth values are compared as truth values. *)
-Theorem C02_mysql_bool_default_except :
+(** 4d. MySQL bool columns (since fix C02-mysql-bool-default-unknown-value; before it a default
+    going from 1 to (1 = 2), 2, 'yes' was unreported -- the former C02_mysql_bool_default_refuted):
+    two known truth values are compared as truth values ... *)
+Theorem C02_mysql_bool_default_known :
   forall c c' d1 d2 a b,
   c_class c = MY_BOOL -> default_value c = Some d1 -> default_value c' = Some d2 ->
   bool_value d1 = Some a -> bool_value d2 = Some b ->
   mysql_default_changed c c' = negb (Bool.eqb a b).
 Proof. exact mysql_bool_default_known. Qed.
 
-(** 4e. "an edited column type is reported" is FALSE for PostgreSQL user-defined types:
-    citext -> ltree yields no change (known finding C02-postgres-udt-type-change-unreported) ... *)
-Theorem C02_postgres_udt_type_refuted :
-  exists c c', c_class c = PG_UDT /\ c_class c' = PG_UDT /\ fld 0 (c_T c) <> fld 0 (c_T c') /\
-               forall t, pg_column_change t c c' = Some 0%N.
-Proof.
-  exists (w_udt_col [99;105;116;101;120;116]%N), (w_udt_col [108;116;114;101;101]%N).
-  split; [reflexivity|]. split; [reflexivity|]. split; [discriminate|]. exact w_udt_unreported.
-Qed.
+(** ... and as soon as one of the two is a value boolValue does not know, every textual
+    difference is reported. *)
+Theorem C02_mysql_bool_default_reported :
+  forall c c' d1 d2,
+  c_class c = MY_BOOL -> default_value c = Some d1 -> default_value c' = Some d2 ->
+  bool_value d1 = None \/ bool_value d2 = None ->
+  mysql_default_changed c c' = negb (str_eqb d1 d2).
+Proof. exact mysql_bool_default_unknown. Qed.
 
-(** ... what holds for user-defined types (since fix 0a2c2ef): with a schema scope ns (a
-    connection whose URL carries a search_path) the change is reported exactly when the names
-    differ after the "ns." / "\"ns\"." qualifier is cut off.  Without a scope (DefaultDiff,
-    realm connections) it is never reported: the narrowed known finding. *)
-Theorem C02_postgres_udt_type_except :
+(** 4e. PostgreSQL user-defined types (since fix C02-postgres-udt-type-without-scope; before it
+    citext -> ltree was unreported by a differ without a schema scope -- the former
+    C02_postgres_udt_type_refuted): without a scope (DefaultDiff, realm connections) the
+    change is reported exactly when the names differ ... *)
+Theorem C02_postgres_udt_type_noscope :
+  forall c c', c_class c = PG_UDT -> c_class c' = PG_UDT ->
+  pg_type_changed_ns [] c c' = Some (negb (str_eqb (fld 0 (c_T c)) (fld 0 (c_T c')))).
+Proof. exact pg_udt_type_changed_noscope. Qed.
+
+(** ... and with a schema scope ns (a connection whose URL carries a search_path) exactly when
+    the names differ after the "ns." / "\"ns\"." qualifier is cut off. *)
+Theorem C02_postgres_udt_type_scope :
   forall ns c c', ns <> [] -> c_class c = PG_UDT -> c_class c' = PG_UDT ->
   pg_type_changed_ns ns c c' =
   Some (negb (str_eqb (trim_schema ns (fld 0 (c_T c'))) (trim_schema ns (fld 0 (c_T c))))).
@@ -465,22 +462,14 @@ Theorem C02_unnamed_pairing_count :
   length (filter (claimed D from to) (seq 0 (length (t_idx to)))) = length (filter (has_partner D from to) (t_idx from)).
 Proof. exact pairing_count. Qed.
 
-(** 5c. "functional_index_2, functional_index_3, ... are names generated by MySQL" is not what
-    IsGeneratedIndexName says: only functional_index itself is recognised (strings.TrimLeft with
-    the name's own characters as cutset leaves ""), so such an index is dropped and re-added
-    when the desired state lists it unnamed (known finding
-    C02-mysql-functional-index-n-not-recognised). *)
-Theorem C02_mysql_functional_index_refuted :
-  (exists t idx, i_name idx = FUNCTIONAL_INDEX ++ [95;50]%N /\ mysql_is_generated_index_name t idx = false) /\
-  (exists t idx, i_name idx = FUNCTIONAL_INDEX /\ mysql_is_generated_index_name t idx = true).
-Proof.
-  destruct w_functional_index as [A B]. split.
-  - exists w_grp_from, (w_fi s_fi2). split; [reflexivity|exact B].
-  - exists w_grp_from, (w_fi FUNCTIONAL_INDEX). split; [reflexivity|exact A].
-Qed.
-Theorem C02_mysql_functional_index_except :
-  forall t idx rest, i_name idx = FUNCTIONAL_INDEX ++ ch_us :: rest -> mysql_is_generated_index_name t idx = false.
-Proof. exact mysql_functional_suffix_never. Qed.
+(** 5c. MySQL names unnamed functional indexes functional_index, functional_index_2, ...: a
+    name functional_index_<rest> is a generated one exactly when <rest> is a number > 1 (since
+    fix C02-mysql-functional-index-suffix; before it IsGeneratedIndexName answered false for
+    every such name -- the former C02_mysql_functional_index_refuted). *)
+Theorem C02_mysql_functional_index :
+  forall t idx rest, i_name idx = FUNCTIONAL_INDEX ++ ch_us :: rest ->
+  mysql_is_generated_index_name t idx = parse_int_gt 1 rest.
+Proof. exact mysql_functional_suffix. Qed.
 
 (** 6a. The MySQL differ of EVERY server variant (CHECK support, functional-index support,
     charset -> default collation and collation -> charset tables -- all that mysql.Open and
@@ -553,20 +542,16 @@ Theorem C02_mysql_variant_no_check :
   forall v from to, mv_check v = false -> t_checks to <> [] -> mysql_table_attr_diff_v v from to = None.
 Proof. exact mysql_no_check_error. Qed.
 
-(** 6f. History through the desired graph.  defaultCharset / defaultCollate write what they found
-    into the attributes of the desired column.  Asked again about the same graph, the same
-    differ sees the completed pair and answers the same (completion is idempotent) ... *)
-Theorem C02_mysql_fill_idempotent_except :
+(** 6f. History through the desired graph.  Since fix C02-mysql-default-charset-copy the differ
+    completes a *copy* of the desired column's attributes (before it, defaultCharset /
+    defaultCollate appended to the desired column itself and a differ of another server, shown
+    the same graph, read the first server's default as the user's choice: [fill_pair_other_server],
+    the former C02_mysql_fill_other_server_refuted).  The answer is [mysql_column_change_v] of the
+    attributes as given -- a function of (variant, from, to) -- and completing is idempotent, so a
+    caller that does store the completed attributes gets the same answer from the same server. *)
+Theorem C02_mysql_fill_idempotent :
   forall v p, fill_pair v (fill_pair v p) = fill_pair v p.
 Proof. exact fill_pair_idempotent. Qed.
-
-(** ... but "the answer does not depend on which differ saw the graph before" is FALSE: a lone
-    charset utf8mb4 completed by a 5.7 server (utf8mb4_general_ci) is not what an 8.0 server
-    makes of it (utf8mb4_0900_ai_ci).  Reproduced on the Go code (history stage, pass 3b; known
-    finding C02-mysql-differ-writes-server-defaults-into-desired-graph). *)
-Theorem C02_mysql_fill_other_server_refuted :
-  exists v v' p, fill_pair v' (fill_pair v p) <> fill_pair v' p.
-Proof. exists w_v57, w_v80, ([117;116;102;56;109;98;52]%N, []). exact fill_pair_other_server. Qed.
 
 (** * Non-vacuity: concrete inputs (vm_compute) *)
 Definition x_a : column := mkColumn [97]%N 2 [105;110;116]%N false None None None.
@@ -698,6 +683,11 @@ Example C02_ex_pairing_positions :
   positions mysql_driver w_grp_from w_grp_to2 (t_idx w_grp_from) = [0; 0] /\
   positions mysql_driver w_grp_from (mkTable [116]%N false false [w_grp_col] None [w_uq []] [] []) [w_uq s_age] = [0].
 Proof. split; vm_compute; reflexivity. Qed.
+Example C02_ex_fixed_witnesses :
+  (forall t, mysql_column_change t w_bool_col w_bool_col' = Some ChangeDefault) /\
+  (forall t, pg_column_change t (w_udt_col [99;105;116;101;120;116]%N) (w_udt_col [108;116;114;101;101]%N) = Some ChangeType) /\
+  mysql_is_generated_index_name w_grp_from (w_fi s_fi2) = true.
+Proof. split; [exact w_bool_reported|]. split; [exact w_udt_reported|]. exact (proj2 w_functional_index). Qed.
 Example C02_ex_no_check : mysql_table_attr_diff_v x_v57 x_t x_t = None.
 Proof. vm_compute. reflexivity. Qed.
 
@@ -723,19 +713,13 @@ Print Assumptions C02_mysql_perm_empty.
 Print Assumptions C02_postgres_laws.
 Print Assumptions C02_postgres_perm_empty.
 Print Assumptions C02_mysql_column_bits.
-Print Assumptions C02_mysql_bool_default_refuted.
-Print Assumptions C02_mysql_bool_default_except.
-Print Assumptions C02_postgres_udt_type_refuted.
 Print Assumptions C02_postgres_column_bits_except.
 Print Assumptions C02_no_similar_index.
-Print Assumptions C02_postgres_udt_type_except.
 Print Assumptions C02_postgres_ns_laws.
 Print Assumptions C02_sqlite_copy_empty.
 Print Assumptions C02_indexes_unnamed_exact.
 Print Assumptions C02_unnamed_group_refuted.
 Print Assumptions C02_unnamed_group_except.
-Print Assumptions C02_mysql_functional_index_refuted.
-Print Assumptions C02_mysql_functional_index_except.
 Print Assumptions C02_mysql_variant_laws.
 Print Assumptions C02_mysql_variant_perm_empty.
 Print Assumptions C02_mysql_variant_column_bits.
@@ -743,6 +727,10 @@ Print Assumptions C02_mysql_variant_fill.
 Print Assumptions C02_mysql_variant_local.
 Print Assumptions C02_mysql_variant_default.
 Print Assumptions C02_mysql_variant_no_check.
-Print Assumptions C02_mysql_fill_idempotent_except.
-Print Assumptions C02_mysql_fill_other_server_refuted.
 Print Assumptions C02_unnamed_pairing_count.
+Print Assumptions C02_mysql_bool_default_known.
+Print Assumptions C02_mysql_bool_default_reported.
+Print Assumptions C02_postgres_udt_type_noscope.
+Print Assumptions C02_postgres_udt_type_scope.
+Print Assumptions C02_mysql_functional_index.
+Print Assumptions C02_mysql_fill_idempotent.
